@@ -187,7 +187,7 @@ Proof. reflexivity. Qed.
 Definition model_root_names (M : smodel) (op : optype) : option str :=
   match op with Query => Some (m_query M) | Mutation => m_mutation M | Subscription => m_subscription M end.
 Lemma sd_of_root_names M op : root_names (fold_left set_step (sd_ops (sd_of M)) roots0) op = model_root_names M op.
-Proof. unfold sd_of. cbn [sd_ops]. destruct (m_mutation M), (m_subscription M), op; reflexivity. Qed.
+Proof. unfold sd_of, model_root_names. cbn [sd_ops]. destruct (m_mutation M) as [x|], (m_subscription M) as [y|], op; reflexivity. Qed.
 
 (** roots and description of the SDL route for a document that says what the document of M says *)
 Lemma sdl_roots_explicit M D :
@@ -203,11 +203,13 @@ Proof.
   rewrite schema_defs_sdl_doc, schemadef_of_sd, Hex in Hsd. cbn [schema_defs map] in Hsd.
   unfold parsed_positions in Hpos.
   destruct (schema_defs D) as [|sd [|sd2 rest]]; cbn [map] in Hsd; try discriminate.
-  injection Hsd as Hsd. inversion Hpos as [|? ? Hp _]; subst.
+  assert (Hsd' : erase_schemadef sd = erase_schemadef (sd_of M)) by congruence. clear Hsd.
+  inversion Hpos as [|? ? Hp _]; subst.
   cbn [fold_left]. unfold sd_step. cbn [fst snd convert_schema_definition b_desc b_roots b_types b_dirs npos nval].
-  assert (Hdesc : erase_desc (sd_desc sd) = erase_desc (sd_desc (sd_of M))) by (unfold erase_schemadef in Hsd; congruence).
-  assert (Hops : map (fun kv => (fst kv, erase_ident (snd kv))) (sd_ops sd) = map (fun kv => (fst kv, erase_ident (snd kv))) (sd_ops (sd_of M)))
-    by (unfold erase_schemadef in Hsd; congruence).
+  assert (Hdesc : erase_desc (sd_desc sd) = erase_desc (sd_desc (sd_of M))).
+  { change (sd_desc (erase_schemadef sd) = sd_desc (erase_schemadef (sd_of M))). now rewrite Hsd'. }
+  assert (Hops : map (fun kv => (fst kv, erase_ident (snd kv))) (sd_ops sd) = map (fun kv => (fst kv, erase_ident (snd kv))) (sd_ops (sd_of M))).
+  { change (sd_ops (erase_schemadef sd) = sd_ops (erase_schemadef (sd_of M))). now rewrite Hsd'. }
   split; [|split].
   - cbn [sd_of sd_desc] in Hdesc. destruct (sd_desc sd) as [x|], (m_desc M) as [y|]; cbn in Hdesc |- *; congruence.
   - exact Hp.
@@ -246,9 +248,10 @@ Theorem routes_agree st meta M D :
   exists Sj, json_route (introspect st meta M) = Ok Sj /\ schema_equiv_on (vis_of M) Sj (ast_to_type_system D).
 Proof.
   intros Hok [Hsd [Hty Hdir]] Hpos.
-  unfold model_ok in Hok. repeat (apply Bool.andb_true_iff in Hok as [Hok ?]).
-  rename H into Hdesc, H0 into Hroots, H1 into Himpl, H2 into Hshadow.
-  unfold names_ok in Hok. repeat (apply Bool.andb_true_iff in Hok as [Hok ?]). rename H into Hnd_dirs, H0 into Hplain.
+  unfold model_ok in Hok.
+  apply Bool.andb_true_iff in Hok as [Hok Hdesc]. apply Bool.andb_true_iff in Hok as [Hok Hroots].
+  apply Bool.andb_true_iff in Hok as [Hok Himpl]. apply Bool.andb_true_iff in Hok as [Hnd_dirs Hshadow].
+  unfold dirs_ok in Hnd_dirs.
   exists (json_schema (listed_types meta M) M). split; [apply json_route_introspect_of|].
   set (Sj := json_schema (listed_types meta M) M). set (Ss := ast_to_type_system D).
   (* types, per compared name *)
